@@ -117,7 +117,8 @@ def rawcol(col, stats, parsed=None, embedded=None, tokenized=None) -> str:
             if isinstance(c, str):
                 return f"MCStr {pstr(c)}"
             return f"MCList {plist(c, ppval)}"
-        return f"RMulti {plist(cats, ppval)} {sep} " + plist(cells, cell)
+        dtype_ok = "false" if col.get("dtype") == "float64" else "true"      # the mapper's dtype gate
+        return f"RMulti {dtype_ok} {plist(cats, ppval)} {sep} " + plist(cells, cell)
     if st == "sequence_numerical":
         def cell(c):
             if c is None:
